@@ -593,6 +593,11 @@ generic(struct scope *s)
 	struct expr *e, *match = NULL, *def = NULL;
 	struct type *t, *want;
 	enum typequal qual;
+	struct {
+		struct type *type;
+		enum typequal qual;
+	} *assoc = NULL;
+	size_t nassoc = 0, i;
 
 	next();
 	expect(TLPAREN, "after '_Generic'");
@@ -617,6 +622,15 @@ generic(struct scope *s)
 				error(&tok.loc, "generic association must have complete type");
 			if (t->prop & PROPVM)
 				error(&tok.loc, "generic association has variably modified type");
+			/* 6.5.1.1p2 */
+			for (i = 0; i < nassoc; ++i) {
+				if (assoc[i].qual == qual && typecompatible(assoc[i].type, t))
+					error(&tok.loc, "generic association list has two compatible types");
+			}
+			assoc = xreallocarray(assoc, nassoc + 1, sizeof *assoc);
+			assoc[nassoc].type = t;
+			assoc[nassoc].qual = qual;
+			++nassoc;
 			expect(TCOLON, "after type name");
 			e = assignexpr(s);
 			if (typecompatible(t, want) && qual == QUALNONE) {
@@ -629,6 +643,7 @@ generic(struct scope *s)
 		}
 	} while (consume(TCOMMA));
 	expect(TRPAREN, "after generic assocation list");
+	free(assoc);
 	if (!match) {
 		if (!def)
 			error(&tok.loc, "generic selector matches no associations and no default was specified");
